@@ -11,7 +11,7 @@ use refimpl as r;
 use refimpl::{Mode, MODES};
 use serde_json::json;
 
-const RULE: &str = "EVERY context length n in 0..=N (quick N=1100, thorough N=70000, crossing 256, 512 and 65536) x 4 modes x 3 sets: signing must be Ok iff n <= 255 (and then the signature verifies with the same context and fails with a context one byte longer/shorter); verification with an n-byte context, n > 255, must be false for signatures built to alias: the crate's own signature for (ctx' = C[..n-256], M' = C[n-256..] || M), and reference-made signatures over three literal aliasing models (length byte wrapped mod 256 with the full context; context truncated to 255 bytes; length byte saturated at 255 with the full context), in pure and pre-hash modes. Non-trivial = distinct (set, mode, n, probe kind) evaluations.";
+const RULE: &str = "EVERY context length n in 0..=N (quick N=1100, thorough N=70000, crossing 256, 512 and 65536; quick additionally samples lengths around 65536, 131072 and 196608) x 4 modes x 3 sets: signing must be Ok iff n <= 255 (and then the signature verifies with the same context and fails with a context one byte longer/shorter); verification with an n-byte context, n > 255, must be false for signatures built to alias: the crate's own signature for (ctx' = C[..n-256], M' = C[n-256..] || M), and reference-made signatures over three literal aliasing models (length byte wrapped mod 256 with the full context; context truncated to 255 bytes; length byte saturated at 255 with the full context), in pure and pre-hash modes. Non-trivial = distinct (set, mode, n, probe kind) evaluations.";
 
 pub fn run(ctx: &Ctx) -> StageOut {
     let mut acc = Acc::new();
@@ -30,7 +30,12 @@ fn run_set<S: PS>(ctx: &Ctx) -> Acc {
     let mut g0 = Prng::derive(ctx.seed, &format!("c07-{}", p.name), 0);
     let xi = g0.arr32();
     let (pk_b, sk_b) = r::keygen_internal(p, &xi);
-    let big_ctx = g0.bytes(n_max + 8);
+    // beyond the enumerated range: lengths around every wrap point of a 16-bit (and 17-bit) length
+    let extras: Vec<usize> = [65_535usize, 65_536, 65_537, 65_600, 65_791, 65_792, 131_071, 131_072, 131_073, 131_327, 196_608]
+        .into_iter().filter(|&n| n > n_max).collect();
+    let mut all_lens: Vec<usize> = (0..=n_max).collect();
+    all_lens.extend(extras.iter().copied());
+    let big_ctx = g0.bytes(all_lens.iter().copied().max().unwrap_or(n_max) + 8);
     let m = g0.bytes(24);
     let chunks = 64usize;
     let accs = par_map(chunks, |c| {
@@ -41,8 +46,9 @@ fn run_set<S: PS>(ctx: &Ctx) -> Acc {
         };
         let mut g = Prng::derive(ctx.seed, &format!("c07-{}", p.name), 1 + c as u64);
         // interleave lengths over chunks so that every chunk has short and long ones
-        let mut n = c;
-        while n <= n_max {
+        let mut li = c;
+        while li < all_lens.len() {
+            let n = all_lens[li];
             let cx = &big_ctx[..n];
             for mode in MODES {
                 acc.eval();
@@ -118,7 +124,7 @@ fn run_set<S: PS>(ctx: &Ctx) -> Acc {
                     }
                 }
             }
-            n += chunks;
+            li += chunks;
         }
         acc
     });
@@ -129,7 +135,10 @@ fn run_set<S: PS>(ctx: &Ctx) -> Acc {
     if ctx.thorough() {
         lens.extend([1279, 4096, 65_535, 65_536, 65_537, 65_791]);
     }
-    lens.retain(|&n| n <= n_max);
+    lens.extend([65_536usize, 65_537, 65_791, 131_072]);
+    lens.sort_unstable();
+    lens.dedup();
+    lens.retain(|&n| n + 8 <= big_ctx.len());
     let jobs: Vec<(usize, Mode, usize)> = lens.iter().flat_map(|&n| MODES.iter().flat_map(move |&mo| (0..3).map(move |k| (n, mo, k)))).collect();
     let (Ok(Ok(pk)),) = (guarded(|| S::pk_from(&pk_b)),) else { return acc };
     let res = par_map(jobs.len(), |j| {
